@@ -70,20 +70,22 @@ type Config struct {
 }
 
 type Sched struct {
-	cfg      Config
-	threads  []*Thread
-	cur      *Thread
-	clock    int64
-	timers   []*timer
-	timerSeq int
-	aborting bool
-	enBuf    []*Thread
-	nextID   int
-	nDone    int
-	ended    bool
-	endCh    chan struct{}
-	prefix   []int
-	prefixN  []int
+	cfg           Config
+	threads       []*Thread
+	cur           *Thread
+	clock         int64
+	timers        []*timer
+	timerSeq      int
+	aborting      bool
+	enBuf         []*Thread
+	nextID        int
+	quiesceWaiter *Thread
+	quiescent     bool
+	nDone         int
+	ended         bool
+	endCh         chan struct{}
+	prefix        []int
+	prefixN       []int
 
 	Points   []PointRec
 	Steps    int
@@ -141,6 +143,20 @@ func Blocked(t *Thread) bool {
 
 // Done reports whether thread t has finished.
 func (t *Thread) Done() bool { return t == nil || t.done }
+
+// WaitQuiescent parks the calling driver thread until no other thread can move and no timer is
+// pending (the system under test has gone quiet). Only one thread may wait at a time.
+func WaitQuiescent() {
+	s := G
+	if s == nil || s.aborting {
+		return
+	}
+	s.quiesceWaiter = s.cur
+	s.quiescent = false
+	Point("quiesce", 0, func() bool { return s.quiescent })
+	s.quiesceWaiter = nil
+	s.quiescent = false
+}
 
 // Yield is a plain scheduling point that is always enabled.
 func Yield(kind string) { Point(kind, 0, always) }
@@ -228,6 +244,11 @@ func (s *Sched) pick(self *Thread) *Thread {
 		en := s.enabledSet(self)
 		if len(en) == 0 {
 			if !s.advanceClock() {
+				if s.quiesceWaiter != nil && !s.quiescent {
+					// nothing can move any more: release the driver thread waiting for quiescence
+					s.quiescent = true
+					continue
+				}
 				s.Deadlock = true
 				return nil
 			}
